@@ -87,6 +87,22 @@ def parse(s, d, supplemental=False):
     return out
 
 
+def parse_tolerant(s, d, supplemental=False):
+    """like parse, but the one tolerated ill-formed ending (an even delimiter run right after a token) is read as the string
+    without its final delimiter -- the reading a reader may take when it announces it with a warning"""
+    st, tokens, tt = tokenize(s, d, supplemental)
+    if st == TOLERATED:
+        tokens = tt
+    elif st != ACCEPT:
+        raise Reject(st)
+    if tokens is None or len(tokens) % 2:
+        raise Reject('odd')
+    out = {}
+    for k, v in zip(tokens[0::2], tokens[1::2]):
+        out[k] = v
+    return out
+
+
 def encode(pairs, d, leading=True, trailing=True):
     """Write pairs (list of (k, v)) by the escaping rule."""
     esc = lambda t: t.replace(d, d + d)
